@@ -526,7 +526,23 @@ def c18_pipe_peer(path, role, script):
     faulthandler.dump_traceback_later(40, file=dump, exit=False)
     dump.write(f'{role} pid {os.getpid()} started\n')
     dump.flush()
+    late_creation = script and script[0][0] == 'create-after'
+    no_barrier = late_creation or (script and script[0][0] == 'no-barrier')
+    if late_creation:
+        time.sleep(script[0][1])  # this side comes into existence late: the other one is already waiting in its first recv
+    if script and script[0][0] in ('create-after', 'no-barrier'):
+        script = script[1:]
     p = (Server if role == 'server' else Client)(path)
+    # both objects exist before either side acts (the module asks for one object in each process; what is sent to a side that has not
+    # been created at all cannot be kept by anybody)
+    base = os.path.dirname(os.path.dirname(path))
+    open(os.path.join(base, f'{role}.constructed'), 'w').close()
+    other = os.path.join(base, ('client' if role == 'server' else 'server') + '.constructed')
+    t_end = time.monotonic() + 30
+    while not no_barrier and not os.path.exists(other) and time.monotonic() < t_end:
+        time.sleep(0.002)
+    dump.write(f'{role}: both sides constructed\n')
+    dump.flush()
     got = []
     for step in script:
         if step[0] == 'send':
